@@ -152,3 +152,71 @@ func VerifC04BatchReport(spec VerifC11Spec) (bool, []string, bool) {
 	ok := results.report(p)
 	return ok, p.lines, false
 }
+
+// VerifC04RunLoop is VerifC04Run with the number of concurrently running servers as a parameter
+// and the server instances in sorted order (Verbose), for the scripted-client scenarios.
+func VerifC04RunLoop(dir string, clientCommand []string, suiteYAML, cfgYAML string, knownFailing, knownFlaky []string, maxServers uint) (bool, string, []string, []string) {
+	suitePath := filepath.Join(dir, "suite.yaml")
+	cfgPath := filepath.Join(dir, "config.yaml")
+	if err := os.WriteFile(suitePath, []byte(suiteYAML), 0o600); err != nil {
+		return false, "verif: " + err.Error(), nil, nil
+	}
+	if err := os.WriteFile(cfgPath, []byte(cfgYAML), 0o600); err != nil {
+		return false, "verif: " + err.Error(), nil, nil
+	}
+	logPrinter, errPrinter := &verifC04Printer{}, &verifC04Printer{}
+	ok, err := Run(&Flags{
+		ConfigFile:           cfgPath,
+		TestFiles:            []string{suitePath},
+		KnownFailingPatterns: knownFailing,
+		KnownFlakyPatterns:   knownFlaky,
+		ClientCommand:        clientCommand,
+		MaxServers:           maxServers,
+		Parallelism:          1,
+		ServerBind:           "127.0.0.1",
+		Verbose:              true,
+	}, logPrinter, errPrinter)
+	errText := ""
+	if err != nil {
+		errText = err.Error()
+	}
+	logPrinter.mu.Lock()
+	defer logPrinter.mu.Unlock()
+	errPrinter.mu.Lock()
+	defer errPrinter.mu.Unlock()
+	return ok, errText, append([]string{}, logPrinter.lines...), append([]string{}, errPrinter.lines...)
+}
+
+// VerifC04Batches loads the suite and configuration exactly as Run does (client mode: client
+// under test against the reference servers) and returns the selected permutations grouped into
+// the server batches run() will spawn, in spawn order (reference server first, then the gRPC
+// reference server; server instances sorted as with Verbose).
+func VerifC04Batches(suitePath string, suiteYAML, cfgYAML string) ([][]string, error) {
+	suites, err := parseTestSuites(map[string][]byte{suitePath: []byte(suiteYAML)})
+	if err != nil {
+		return nil, err
+	}
+	cases, err := parseConfig("config.yaml", []byte(cfgYAML))
+	if err != nil {
+		return nil, err
+	}
+	lib, err := newTestCaseLibrary(suites, cases, conformancev1.TestSuite_TEST_MODE_CLIENT)
+	if err != nil {
+		return nil, err
+	}
+	var out [][]string
+	for _, serverIsGRPC := range []bool{false, true} {
+		for _, inst := range serverInstancesSlice(lib, true) {
+			tcs := lib.filterGRPCImplTestCases(lib.casesByServer[inst], false, serverIsGRPC)
+			if len(tcs) == 0 {
+				continue
+			}
+			names := make([]string, len(tcs))
+			for i, tc := range tcs {
+				names[i] = tc.Request.TestName
+			}
+			out = append(out, names)
+		}
+	}
+	return out, nil
+}
